@@ -328,3 +328,12 @@ pub fn run(tier: &str, seed: u64, s: &mut Sink) {
         emit(s, "random", &r.bytes(len));
     }
 }
+
+/// implementation observation for a case line of this module (None: not one of mine)
+pub fn observe_line(line: &str) -> Option<String> {
+    let (tag, rest) = line.split_once(' ').unwrap_or((line, "-"));
+    match tag {
+        "adc" => Some(observe(&crate::util::unhex(rest))),
+        _ => None,
+    }
+}
